@@ -222,6 +222,22 @@ where
     F: Hashable<H> + Sampleable<H>,
     C: Hashable<H>,
 {
+    make_inner_opt::<H>(setup, fp, extra_k, seed, false)
+}
+
+/// As `make_inner`; with `empty_plain` the plain instance columns are given NO value (legal when the
+/// circuit does not constrain its instance cells: the columns are then all-zero polynomials).
+pub fn make_inner_opt<H: TranscriptHash>(
+    setup: &mut Setup,
+    fp: &FamParams,
+    extra_k: u32,
+    seed: u64,
+    empty_plain: bool,
+) -> Result<Inner, String>
+where
+    F: Hashable<H> + Sampleable<H>,
+    C: Hashable<H>,
+{
     let circuit = FamCircuit::new(fp.clone(), seed);
     let mut k = 4;
     let (pk, k) = loop {
@@ -242,7 +258,12 @@ where
     };
     let params = setup.get(k).clone();
     let shape = shape_string(&pk, k);
-    let insts = circuit.instances();
+    let mut insts = circuit.instances();
+    if empty_plain {
+        for col in insts[fp.n_committed..].iter_mut() {
+            col.clear();
+        }
+    }
     let inst_refs: Vec<&[F]> = insts.iter().map(|c| &c[..]).collect();
     let mut tr = CircuitTranscript::<H>::init();
     create_proof::<F, Scheme, _, _>(
@@ -425,11 +446,16 @@ fn acc_of(inner: &Inner, g: &DualMSM<Bls12>) -> Accumulator<Light> {
 /// One inner circuit through the light back-end. `n_mut`: number of claimed-accumulator /
 /// proof / public-input alterations tried (each costs one mock run).
 pub fn run_light(ctx: &mut Ctx, setup: &mut Setup, fp: &FamParams, extra_k: u32, seed: u64, n_mut: usize) {
+    run_light_opt(ctx, setup, fp, extra_k, seed, n_mut, false)
+}
+
+/// As `run_light`; `empty_plain`: see `make_inner_opt`.
+pub fn run_light_opt(ctx: &mut Ctx, setup: &mut Setup, fp: &FamParams, extra_k: u32, seed: u64, n_mut: usize, empty_plain: bool) {
     type H = LightPoseidonFS<F>;
     let mut rng = ChaCha8Rng::seed_from_u64(seed ^ 0x5eed);
-    let desc = json!({"backend": "light", "params": format!("{fp:?}"), "extra_k": extra_k, "seed": seed});
-    let key = format!("light:nc={},npl={},nl={}", fp.n_committed, fp.n_plain, fp.lookups.len());
-    let inner = match make_inner::<H>(setup, fp, extra_k, seed) {
+    let desc = json!({"backend": "light", "params": format!("{fp:?}"), "extra_k": extra_k, "seed": seed, "empty_plain": empty_plain});
+    let key = format!("light:nc={},npl={},nl={}{}", fp.n_committed, fp.n_plain, fp.lookups.len(), if empty_plain { ",empty-plain" } else { "" });
+    let inner = match make_inner_opt::<H>(setup, fp, extra_k, seed, empty_plain) {
         Ok(i) => i,
         Err(e) => {
             ctx.oracle_fail(&format!("inner-proof:{key}"), "key generation or honest inner proof failed", json!({"case": desc, "error": e}));
@@ -468,11 +494,17 @@ pub fn run_light(ctx: &mut Ctx, setup: &mut Setup, fp: &FamParams, extra_k: u32,
                 ctx.oracle_fail("gadget-fails:light:unqueried-advice-column", "light back-end: the verifier circuit panics (FakeCurveChip::finalize) for an inner circuit with an advice column that is never queried", json!({"case": desc, "error": e, "shape": inner.shape}));
                 return;
             }
-            // Limitation of the in-circuit verifier (findings/C20.json): `verify_algebraic_constraints` takes
-            // `.min().unwrap()` / `.max().unwrap()` over the instance queries, so an inner constraint system
-            // without any instance query panics, while the off-circuit verifier accepts such proofs.
+            // Regression cases of a repaired defect (findings/C20.json, `fixed`): `verify_algebraic_constraints`
+            // took `.min().unwrap()` / `.max().unwrap()` over the instance queries and `inner_product` of an
+            // instance column without values, so an inner constraint system without any instance query, or a
+            // plain instance column without values, panicked, while the off-circuit verifier accepts such
+            // proofs. Stable keys, so that a reappearance is reported under the same name.
             if cs.instance_queries().is_empty() && e.as_deref().unwrap_or("").contains("unwrap()") {
                 ctx.oracle_fail("gadget-fails:no-instance-query", "the verifier circuit panics (Option::unwrap on None) for an inner circuit without instance queries, which the off-circuit verifier accepts", json!({"case": desc, "error": e, "shape": inner.shape}));
+                return;
+            }
+            if empty_plain && e.as_deref().unwrap_or("").contains("inner_product received an empty input") {
+                ctx.oracle_fail("gadget-fails:empty-plain-column", "the verifier circuit panics (inner_product of an empty input) for a plain instance column without values, which the off-circuit verifier accepts", json!({"case": desc, "error": e, "shape": inner.shape}));
                 return;
             }
             ctx.oracle_fail(&format!("gadget-fails:{key}"), "the verifier circuit cannot be synthesised on an honest inner proof", json!({"case": desc, "error": e, "shape": inner.shape}));
@@ -531,7 +563,7 @@ pub fn run_light(ctx: &mut Ctx, setup: &mut Setup, fp: &FamParams, extra_k: u32,
     for m in 0..n_mut.min(3) {
         let mut proof2 = inner.proof.clone();
         let mut insts2 = inner.insts.clone();
-        let what = if m == 1 && !insts2[fp.n_committed..].is_empty() {
+        let what = if m == 1 && insts2[fp.n_committed..].first().is_some_and(|c| !c.is_empty()) {
             let c = fp.n_committed;
             insts2[c][0] += F::ONE;
             "public-input"
